@@ -54,6 +54,10 @@ func (c *ExprCtx) fail(format string, args ...any) {
 func (c *ExprCtx) boolExpr(x CExpr) T {
 	tv := c.expr(x)
 	t, ok := tv.V.(T)
+	if ok && t.Sort == SInt && c.lenient && strings.Contains(t.S, "outofscope:") {
+		// a name that is not in scope at this program point, used as a boolean
+		return c.e.s.Const("outofscope-bool", SBool)
+	}
 	if !ok || t.Sort != SBool {
 		c.fail("expected boolean contract expression, got %T in %s", tv.V, cexprString(x))
 	}
